@@ -4,7 +4,10 @@
 (* under the line-level scheduler while _pids_reused holds recycled PIDs.  *)
 (* Each execution is logged as [errs, yielded, listing]; TLC evaluates the *)
 (* two-thread clauses: no exception, every yielded sequence strictly       *)
-(* ascending and a subset of the listing.                                  *)
+(* ascending and a subset of the listing; and, once both threads are done, *)
+(* no PID found recycled (by either thread, at whatever moment) is still   *)
+(* served by the object of its former owner (`stale`, observed three       *)
+(* sequential passes later).                                               *)
 (***************************************************************************)
 EXTENDS Naturals, Sequences, FiniteSets, TLC, Json, IOUtils
 Traces == ndJsonDeserialize(IOEnv.TRACE_FILE)
@@ -16,5 +19,6 @@ Asc(s) == \A i \in 1..(Len(s) - 1) : s[i] < s[i + 1]
 NoError == \A i \in DOMAIN T.errs : T.errs[i] = ""
 Ordered == \A i \in DOMAIN T.yielded : Asc(T.yielded[i])
 Listed == \A i \in DOMAIN T.yielded : \A j \in DOMAIN T.yielded[i] : \E k \in DOMAIN T.listing : T.listing[k] = T.yielded[i][j]
-Accepted == (NoError /\ Ordered /\ Listed) \/ PrintT(<<"REJECTED", idx, <<NoError, Ordered, Listed>>>>)
+Fresh == Len(T.stale) = 0
+Accepted == (NoError /\ Ordered /\ Listed /\ Fresh) \/ PrintT(<<"REJECTED", idx, <<NoError, Ordered, Listed, Fresh>>>>)
 =============================================================================
